@@ -72,3 +72,11 @@ pub unsafe extern "C" fn syscall(num: libc::c_long, a1: usize, a2: usize, a3: us
         ret as libc::c_long
     }
 }
+
+/// std seeds `RandomState` (HashMap iteration order) through a weak reference to `getrandom`; defining it
+/// here makes hash iteration order part of the seed as well (std documents this interposition point).
+#[cfg(all(target_os = "linux", target_arch = "x86_64"))]
+#[unsafe(no_mangle)]
+pub unsafe extern "C" fn getrandom(buf: *mut libc::c_void, len: libc::size_t, flags: libc::c_uint) -> libc::ssize_t {
+    unsafe { syscall(libc::SYS_getrandom, buf as usize, len, flags as usize, 0, 0, 0) as libc::ssize_t }
+}
